@@ -1,6 +1,7 @@
 package props
 
 import (
+	"bytes"
 	"context"
 	"errors"
 	"fmt"
@@ -60,6 +61,7 @@ type hobs struct {
 	CtxDone  bool
 	CtxErr   string
 	SendErr  string
+	Started  bool // user code (or the raw endpoint) was entered
 	returned chan struct{}
 }
 
@@ -113,6 +115,9 @@ func newLiveEnv() *liveEnv {
 	mux.Handle("/verif.Svc/Bidi", connect.NewBidiStreamHandler("/verif.Svc/Bidi", func(ctx context.Context, s *connect.BidiStream[h.Raw, h.Raw]) error {
 		p := parseProg(s.RequestHeader().Get("X-Prog"))
 		o := e.get(s.RequestHeader().Get("X-Call"))
+		o.mu.Lock()
+		o.Started = true
+		o.mu.Unlock()
 		defer close(o.returned)
 		recvOne := func() bool {
 			_, err := s.Receive()
@@ -154,6 +159,9 @@ func newLiveEnv() *liveEnv {
 	mux.Handle("/verif.Svc/Client", connect.NewClientStreamHandler("/verif.Svc/Client", func(ctx context.Context, s *connect.ClientStream[h.Raw]) (*connect.Response[h.Raw], error) {
 		p := parseProg(s.RequestHeader().Get("X-Prog"))
 		o := e.get(s.RequestHeader().Get("X-Call"))
+		o.mu.Lock()
+		o.Started = true
+		o.mu.Unlock()
 		defer close(o.returned)
 		for i := 0; p.Recv < 0 || i < p.Recv; i++ {
 			if !s.Receive() {
@@ -181,6 +189,9 @@ func newLiveEnv() *liveEnv {
 	mux.Handle("/verif.Svc/Server", connect.NewServerStreamHandler("/verif.Svc/Server", func(ctx context.Context, req *connect.Request[h.Raw], s *connect.ServerStream[h.Raw]) error {
 		p := parseProg(req.Header().Get("X-Prog"))
 		o := e.get(req.Header().Get("X-Call"))
+		o.mu.Lock()
+		o.Started = true
+		o.mu.Unlock()
 		defer close(o.returned)
 		o.mu.Lock()
 		o.Received, o.SawEOF = 1, true
@@ -201,6 +212,9 @@ func newLiveEnv() *liveEnv {
 	mux.Handle("/verif.Svc/Unary", connect.NewUnaryHandler("/verif.Svc/Unary", func(ctx context.Context, req *connect.Request[h.Raw]) (*connect.Response[h.Raw], error) {
 		p := parseProg(req.Header().Get("X-Prog"))
 		o := e.get(req.Header().Get("X-Call"))
+		o.mu.Lock()
+		o.Started = true
+		o.mu.Unlock()
 		defer close(o.returned)
 		o.mu.Lock()
 		o.Received, o.SawEOF = 1, true
@@ -217,6 +231,9 @@ func newLiveEnv() *liveEnv {
 	// a handler that flushes) and then waits for the end of the request's context
 	mux.HandleFunc("/verif.Svc/Early", func(w http.ResponseWriter, req *http.Request) {
 		o := e.get(req.Header.Get("X-Call"))
+		o.mu.Lock()
+		o.Started = true
+		o.mu.Unlock()
 		defer close(o.returned)
 		w.Header().Set("Content-Type", req.Header.Get("Content-Type"))
 		w.WriteHeader(200)
@@ -238,11 +255,37 @@ func newLiveEnv() *liveEnv {
 	// then takes its time before ending the response (slow trailers)
 	mux.HandleFunc("/verif.Svc/StallAfterMessage", func(w http.ResponseWriter, req *http.Request) {
 		o := e.get(req.Header.Get("X-Call"))
+		o.mu.Lock()
+		o.Started = true
+		o.mu.Unlock()
 		defer close(o.returned)
 		_, _ = io.Copy(io.Discard, req.Body)
 		w.Header().Set("Content-Type", req.Header.Get("Content-Type"))
 		w.WriteHeader(200)
 		_, _ = w.Write(h.Frame(0, []byte("ok")))
+		if f, ok := w.(http.Flusher); ok {
+			f.Flush()
+		}
+		select {
+		case <-req.Context().Done():
+			o.mu.Lock()
+			o.CtxDone, o.CtxErr = true, req.Context().Err().Error()
+			o.mu.Unlock()
+		case <-time.After(handlerCtxWait):
+		}
+	})
+	// a peer that answers a unary Connect call with the first 64 bytes of a long response
+	// message and then takes its time
+	mux.HandleFunc("/verif.Svc/StallInBody", func(w http.ResponseWriter, req *http.Request) {
+		o := e.get(req.Header.Get("X-Call"))
+		o.mu.Lock()
+		o.Started = true
+		o.mu.Unlock()
+		defer close(o.returned)
+		_, _ = io.Copy(io.Discard, req.Body)
+		w.Header().Set("Content-Type", req.Header.Get("Content-Type"))
+		w.WriteHeader(200)
+		_, _ = w.Write(bytes.Repeat([]byte("z"), 64))
 		if f, ok := w.(http.Flusher); ok {
 			f.Flush()
 		}
@@ -714,6 +757,15 @@ func (e *liveEnv) liveCancel(r *h.Run, rng *h.Rng, fam, kind, proto string, h2 b
 	handlerCtx := func() {
 		// the handler's context must end as well (the handler waits for it)
 		if !c.handlerReturned(handlerCtxWait + time.Second) {
+			c.obs.mu.Lock()
+			started := c.obs.Started
+			c.obs.mu.Unlock()
+			if !started {
+				// the context ended before the request had reached user code: there is no
+				// handler whose context could end
+				c.r.Note("live_cancel: the request of one %s %s call never reached its handler before the context ended", kind, proto)
+				return
+			}
 			c.r.Fail(h.Failure{Key: "handler-ctx/handler-did-not-return", Family: fam, What: "the handler did not return", Input: c.input()})
 			return
 		}
@@ -1081,7 +1133,7 @@ func liveFamily(r *h.Run, rng *h.Rng, fam string, cancelMode bool) {
 		}
 	}
 	// the response message of a unary call has arrived, its end has not
-	for _, proto := range []string{"grpc", "grpcweb"} {
+	for _, proto := range []string{"grpc", "grpcweb", "connect"} {
 		for _, h2 := range []bool{false, true} {
 			if proto == "grpc" && !h2 {
 				continue // (trailers need HTTP/2 here)
@@ -1182,7 +1234,14 @@ func (e *liveEnv) liveUnaryStall(r *h.Run, fam, proto string, h2, deadline bool)
 	c.id = fmt.Sprint(e.seq.Add(1))
 	c.obs = e.get(c.id)
 	c.cc = &countingClient{inner: srv.Client()}
-	client := connect.NewClient[h.Raw, h.Raw](c.cc, srv.URL+"/verif.Svc/StallAfterMessage", liveClientOpts(proto)...)
+	path, opts := "/verif.Svc/StallAfterMessage", liveClientOpts(proto)
+	if proto == "connect" {
+		// unary Connect: the body is the message. The client limits messages to 16 bytes, the
+		// peer has sent 64 and stalls: the client is throwing the rest away when the context ends
+		path, opts = "/verif.Svc/StallInBody", append(opts, connect.WithReadMaxBytes(16))
+		c.log = append(c.log, "[the client limits response messages to 16 bytes; the peer sends 64 bytes of a longer body and stalls]")
+	}
+	client := connect.NewClient[h.Raw, h.Raw](c.cc, srv.URL+path, opts...)
 	want := connect.CodeCanceled.String()
 	var ctx context.Context
 	var cancel context.CancelFunc
@@ -1195,7 +1254,9 @@ func (e *liveEnv) liveUnaryStall(r *h.Run, fam, proto string, h2, deadline bool)
 	}
 	defer cancel()
 	r.Eval(fam, fmt.Sprintf("unary-stall/%s/%v/%v", proto, h2, deadline))
-	c.log = append(c.log, "[the peer sends the response message at once and stalls before ending the response; the context ends meanwhile]")
+	if proto != "connect" {
+		c.log = append(c.log, "[the peer sends the response message at once and stalls before ending the response; the context ends meanwhile]")
+	}
 	req := connect.NewRequest(bigMsg(16))
 	req.Header().Set("X-Call", c.id)
 	err, ok := c.step("CallUnary", func() error { _, err := client.CallUnary(ctx, req); return err })
